@@ -189,7 +189,11 @@ func threeRenders(s *jen.Statement) (results [3]string) {
 	}
 	run(0, func() (string, error) { return s.GoString(), nil }) // fmt would swallow the panic into a %!v(PANIC=...) text
 	run(1, func() (string, error) { b := &bytes.Buffer{}; err := s.Render(b); return b.String(), err })
-	run(2, func() (string, error) { b := &bytes.Buffer{}; err := s.RenderWithFile(b, jen.NewFile("")); return b.String(), err })
+	run(2, func() (string, error) {
+		b := &bytes.Buffer{}
+		err := s.RenderWithFile(b, jen.NewFile(""))
+		return b.String(), err
+	})
 	return
 }
 
